@@ -142,6 +142,8 @@ def run(ctx, env):
         from ..mir import Callee
         uses = uses_of_local(bb, t["dest"]["l"])
         okp = len(uses) == 1 and uses[0][0] == "callarg" and Callee(uses[0][2][0]["func"]["fn"]).nsyn == "std::ops::Try::branch"
+        if t["dest"]["l"] == 0 and not t["dest"].get("p"):
+            okp = True       # the arm's value IS the function's result: returned unchanged
         ctx.ob("R17.4", CALLER, "propagates-helper-result:%s" % cfgname, okp, "helper result consumed by: %s" % [u[0] for u in uses], site=bb.line(blk))
     # R17.4
     hb = off.body(HELPER)
